@@ -232,19 +232,20 @@ Proof.
   rewrite Hc by lia. rewrite IHcs by lia. reflexivity.
 Qed.
 
-Lemma score_at_table : forall T i j,
-  score_at (map (map snd) T) i j = snd (table_at T i j).
+Lemma score_at_table : forall sc T i j,
+  score_at (map (map (pair_score sc)) T) i j = pair_score sc (tentry_at T i j).
 Proof.
-  intros T i j. unfold score_at, table_at.
-  change (@nil N) with (map (@snd (list patch) N) []). rewrite map_nth.
-  change 0 with (snd (@nil patch, 0)). rewrite map_nth. reflexivity.
+  intros sc T i j. unfold score_at, tentry_at.
+  change (@nil N) with (map (pair_score sc) []). rewrite map_nth.
+  change 0 with (pair_score sc (([], 0), false)). rewrite map_nth. reflexivity.
 Qed.
 
-Lemma collect_cells_csum : forall T rs,
-  collect_cells T rs = csum (map (map snd) T) rs.
+Lemma csum_commons : forall scores rs,
+  csum scores rs = wsum (fun c => score_at scores (fst c) (snd c)) (commons rs).
 Proof.
-  intros T rs. induction rs as [|[i j|i|j] rs IH]; cbn [collect_cells csum]; auto.
-  now rewrite IH, score_at_table.
+  intros scores rs. unfold wsum.
+  induction rs as [|[i j|i|j] rs IH]; cbn [csum commons map fst snd]; auto.
+  now rewrite sumN_cons, IH.
 Qed.
 
 Lemma collect_cells_commons : forall T rs,
@@ -263,15 +264,15 @@ Proof.
   - cbn [rows_of]. fold (rows_of f ncs dn). constructor; auto. apply cols_of_length.
 Qed.
 
-Lemma scores_row_length : forall os ns so dn,
-  Forall (fun r => length r = length ns) (map (map snd) (mk_table os ns so dn)).
+Lemma scores_row_length : forall sc os ns so dn,
+  Forall (fun r => length r = length ns) (map (map (pair_score sc)) (mk_table os ns so dn)).
 Proof.
   intros. apply Forall_map. eapply Forall_impl; [|apply rows_of_row_length].
   cbn beta. intros r Hr. now rewrite map_length.
 Qed.
 
-Lemma scores_length : forall os ns so dn,
-  length (map (map snd) (mk_table os ns so dn)) = length os.
+Lemma scores_length : forall sc os ns so dn,
+  length (map (map (pair_score sc)) (mk_table os ns so dn)) = length os.
 Proof. intros. rewrite map_length. apply rows_of_length. Qed.
 
 Lemma In_collect : forall T rs c p,
@@ -400,41 +401,131 @@ Proof.
 Qed.
 
 (* ------------------------------------------------------------------ *)
+(* pair scores                                                         *)
+
+Lemma pair_score_ge : forall sc te, snd (fst te) * sc <= pair_score sc te.
+Proof.
+  intros sc [[ps cells] ex]. cbn [fst snd pair_score].
+  destruct (N.ltb_spec 0 cells) as [H|H]; [lia|].
+  replace cells with 0 by lia. lia.
+Qed.
+
+Lemma pair_score_le : forall sc te,
+  pair_score sc te <= snd (fst te) * sc + (if snd te then 1 else 0).
+Proof.
+  intros sc [[ps cells] ex]. cbn [fst snd pair_score].
+  destruct (0 <? cells); lia.
+Qed.
+
+(* value of a pair of identical children *)
+Definition vfull (sc : N) (c : skel) : N :=
+  if 0 <? count_cells c then count_cells c * sc + 1 else 0.
+
+Lemma pair_score_le_vfull : forall sc te c, snd (fst te) <= count_cells c ->
+  pair_score sc te <= vfull sc c.
+Proof.
+  intros sc [[ps cells] ex] c H. cbn [fst snd] in H. unfold vfull. cbn [pair_score].
+  destruct (N.ltb_spec 0 cells) as [L|L]; [|lia].
+  destruct (N.ltb_spec 0 (count_cells c)) as [L'|L']; [|lia].
+  pose proof (N.mul_le_mono_r _ _ sc H). destruct ex; lia.
+Qed.
+
+Lemma pair_score_full : forall sc te C, snd (fst te) <= C ->
+  pair_score sc te = C * sc + 1 -> snd te = true.
+Proof.
+  intros sc [[ps cells] ex] C H E. cbn [fst snd] in *. cbn [pair_score] in E.
+  destruct ex; auto. exfalso.
+  pose proof (N.mul_le_mono_r _ _ sc H). destruct (0 <? cells); lia.
+Qed.
+
+Lemma pair_score_exact : forall sc x so dn,
+  pair_score sc (bp x x so dn, nodes_match x x) = vfull sc x.
+Proof.
+  intros. rewrite bp_unfold, nodes_match_refl. reflexivity.
+Qed.
+
+Lemma wsum_le_lin : forall (f g h : nat * nat -> N) sc cs,
+  (forall c, f c <= g c * sc + h c) ->
+  wsum f cs <= wsum g cs * sc + wsum h cs.
+Proof.
+  intros f g h sc cs H. unfold wsum. induction cs as [|c cs IH]; [cbn; lia|].
+  cbn [map]. rewrite !sumN_cons, N.mul_add_distr_r. specialize (H c). lia.
+Qed.
+
+Lemma sum_ones : forall (A : Type) (l : list A), sumN (map (fun _ => 1) l) = N.of_nat (length l).
+Proof.
+  induction l as [|x l IH]; [reflexivity|]. cbn [map length]. rewrite sumN_cons, IH. lia.
+Qed.
+
+(* ------------------------------------------------------------------ *)
 (* lower bounds: the DP sees the matching given by an embedding        *)
 
-Local Notation Tsc os ns so dn := (map (map snd) (mk_table os ns so dn)).
+Local Notation Tsc sc os ns so dn := (map (map (pair_score sc)) (mk_table os ns so dn)).
 
 Lemma rb_end' : forall m scores i j, i = length scores -> j = m -> reachb m scores i j 0.
 Proof. intros m scores i j -> ->. constructor. Qed.
 
-Lemma score_mid : forall os1 o os2 ns1 n ns2 so dn,
-  score_at (Tsc (os1 ++ o :: os2) (ns1 ++ n :: ns2) so dn) (length os1) (length ns1) =
-  snd (bp o n (so + offs (os1 ++ o :: os2) (length os1))
-              (dn + offs (ns1 ++ n :: ns2) (length ns1))).
+Lemma score_mid : forall sc os1 o os2 ns1 n ns2 so dn,
+  score_at (Tsc sc (os1 ++ o :: os2) (ns1 ++ n :: ns2) so dn) (length os1) (length ns1) =
+  pair_score sc
+    (bp o n (so + offs (os1 ++ o :: os2) (length os1))
+            (dn + offs (ns1 ++ n :: ns2) (length ns1)), nodes_match o n).
 Proof.
   intros. rewrite score_at_table.
-  rewrite (table_at_in _ _ _ _ _ _ (Mem 0)) by (rewrite app_length; cbn [length]; lia).
+  rewrite (tentry_at_in _ _ _ _ _ _ (Mem 0)) by (rewrite app_length; cbn [length]; lia).
   now rewrite !nth_middle.
 Qed.
 
-Lemma cells_of_call : forall os ns so dn,
-  nodes_match (FnCall os) (FnCall ns) = false ->
-  snd (bp (FnCall os) (FnCall ns) so dn) =
-  dp_at (dp_table (length ns) (Tsc os ns so dn)) (length os) (length ns).
+Lemma reachb_bound : forall sc os ns so dn v,
+  reachb (length ns) (Tsc sc os ns so dn) 0 0 v ->
+  v <= dp_at (dp_table (length ns) (Tsc sc os ns so dn)) (length os) (length ns).
 Proof.
-  intros os ns so dn E. rewrite bp_unfold, E. cbv zeta. cbn [snd].
-  rewrite collect_cells_csum.
-  pose proof (lcs_csum (length ns) _ (scores_row_length os ns so dn)) as L.
-  rewrite scores_length in L. exact L.
+  intros sc os ns so dn v R.
+  pose proof (dp_ge_reachb _ _ (scores_row_length sc os ns so dn) _ _ _ R) as D.
+  rewrite scores_length in D. lia.
 Qed.
 
-Lemma reachb_bound : forall os ns so dn v,
-  reachb (length ns) (Tsc os ns so dn) 0 0 v ->
-  v <= dp_at (dp_table (length ns) (Tsc os ns so dn)) (length os) (length ns).
+Lemma lcs_value : forall sc os ns so dn,
+  wsum (fun c => pair_score sc (tentry_at (mk_table os ns so dn) (fst c) (snd c)))
+       (commons (lcs_by_score (length os) (length ns) (Tsc sc os ns so dn))) =
+  dp_at (dp_table (length ns) (Tsc sc os ns so dn)) (length os) (length ns).
 Proof.
-  intros os ns so dn v R.
-  pose proof (dp_ge_reachb _ _ (scores_row_length os ns so dn) _ _ _ R) as D.
-  rewrite scores_length in D. lia.
+  intros sc os ns so dn.
+  pose proof (lcs_csum (length ns) _ (scores_row_length sc os ns so dn)) as L.
+  rewrite scores_length, csum_commons in L. rewrite <- L.
+  unfold wsum. f_equal. apply map_ext. intros c. now rewrite score_at_table.
+Qed.
+
+(* the optimum carries the maximal number of cells: the bonus never outweighs a cell *)
+Lemma call_lower : forall os ns so dn C,
+  nodes_match (FnCall os) (FnCall ns) = false ->
+  bp_scale os ns * C <=
+    dp_at (dp_table (length ns) (Tsc (bp_scale os ns) os ns so dn)) (length os) (length ns) ->
+  C <= snd (bp (FnCall os) (FnCall ns) so dn).
+Proof.
+  intros os ns so dn C E H. rewrite bp_unfold, E. cbv zeta. cbn [snd].
+  rewrite <- lcs_value in H. rewrite collect_cells_commons.
+  set (sc := bp_scale os ns) in *. set (T := mk_table os ns so dn) in *.
+  set (cs := commons _) in *.
+  assert (Hcs : StronglySorted lt2 cs) by apply lcs_sorted. clearbody cs.
+  set (g := fun c : nat * nat => snd (table_at T (fst c) (snd c))).
+  set (h := fun c : nat * nat => if snd (tentry_at T (fst c) (snd c)) then 1 else 0).
+  pose proof (wsum_le_lin _ g h sc cs
+                (fun c => pair_score_le sc (tentry_at T (fst c) (snd c)))) as L.
+  assert (Hh : wsum h cs <= N.of_nat (length ns)).
+  { assert (Ssnd : StronglySorted (fun a b => (snd a < snd b)%nat) cs).
+    { eapply SSorted_impl; [|exact Hcs]. intros a b [_ Hab]. exact Hab. }
+    destruct (tight snd h (map (fun _ => 1) ns) cs O Ssnd) as [B _].
+    - intros [i j] _. split; [lia|]. unfold h. cbn [fst snd]. subst T.
+      destruct (Nat.lt_ge_cases j (length ns)) as [Hj|Hj].
+      + rewrite (nth_map_in _ _ (fun _ => 1) ns j (Mem 0) 0 Hj). destruct (snd _); lia.
+      + rewrite tentry_at_out by lia. cbn [snd]. lia.
+    - rewrite pre_0, sum_ones in B. lia. }
+  assert (Hsc : N.of_nat (length ns) < sc) by (subst sc; unfold bp_scale; lia).
+  assert (sc * C < sc * (wsum g cs + 1)).
+  { rewrite N.mul_add_distr_l, (N.mul_comm sc (wsum g cs)). lia. }
+  assert (C < wsum g cs + 1); [|lia].
+  eapply N.mul_lt_mono_pos_l; [|eassumption]. lia.
 Qed.
 
 Lemma lower_new : forall n o, embeds n o ->
@@ -442,27 +533,27 @@ Lemma lower_new : forall n o, embeds n o ->
 Proof.
   apply (embeds_mind
     (fun n o => forall so dn, count_cells n <= snd (bp o n so dn))
-    (fun ns' os' => forall os1 ns1 so dn,
-       exists v, reachb (length (ns1 ++ ns')) (Tsc (os1 ++ os') (ns1 ++ ns') so dn)
+    (fun ns' os' => forall sc os1 ns1 so dn,
+       exists v, reachb (length (ns1 ++ ns')) (Tsc sc (os1 ++ os') (ns1 ++ ns') so dn)
                         (length os1) (length ns1) v /\
-                 sumN (map count_cells ns') <= v)).
+                 sc * sumN (map count_cells ns') <= v)).
   - intros s so dn. rewrite bp_unfold, nodes_match_refl. cbn [snd]. lia.
   - intros ns os _ IH so dn. destruct (nodes_match (FnCall os) (FnCall ns)) eqn:E.
     + rewrite bp_unfold, E. apply nodes_match_eq in E. rewrite E. cbn [snd]. lia.
-    + rewrite (cells_of_call _ _ _ _ E).
-      destruct (IH [] [] so dn) as (v & R & B). cbn [app length] in R.
+    + apply call_lower; auto.
+      destruct (IH (bp_scale os ns) [] [] so dn) as (v & R & B). cbn [app length] in R.
       apply reachb_bound in R. rewrite count_cells_FnCall. lia.
-  - intros os1 ns1 so dn. exists 0. split; [|cbn; lia].
+  - intros sc os1 ns1 so dn. exists 0. split; [|cbn; lia].
     apply rb_end'; rewrite ?scores_length, !app_nil_r; reflexivity.
-  - intros ns' o os'' _ IH os1 ns1 so dn.
-    destruct (IH (os1 ++ [o]) ns1 so dn) as (v & R & B).
+  - intros ns' o os'' _ IH sc os1 ns1 so dn.
+    destruct (IH sc (os1 ++ [o]) ns1 so dn) as (v & R & B).
     rewrite <- app_assoc in R. cbn [app] in R.
     rewrite (app_length os1 [o]) in R. cbn [length] in R. rewrite Nat.add_1_r in R.
     exists v. split; auto. apply rb_del; auto.
     + rewrite scores_length, app_length. cbn [length]. lia.
     + rewrite app_length. lia.
-  - intros n o ns'' os'' _ IHe _ IH os1 ns1 so dn.
-    destruct (IH (os1 ++ [o]) (ns1 ++ [n]) so dn) as (v & R & B).
+  - intros n o ns'' os'' _ IHe _ IH sc os1 ns1 so dn.
+    destruct (IH sc (os1 ++ [o]) (ns1 ++ [n]) so dn) as (v & R & B).
     rewrite <- !app_assoc in R. cbn [app] in R.
     rewrite (app_length os1 [o]), (app_length ns1 [n]) in R. cbn [length] in R.
     rewrite !Nat.add_1_r in R.
@@ -470,9 +561,13 @@ Proof.
     + apply rb_com; [| |exact R].
       * rewrite scores_length, app_length. cbn [length]. lia.
       * rewrite app_length. cbn [length]. lia.
-    + rewrite score_mid. cbn [map]. rewrite sumN_cons.
+    + rewrite score_mid. cbn [map]. rewrite sumN_cons, N.mul_add_distr_l.
+      match goal with |- context [pair_score sc ?te] =>
+        pose proof (pair_score_ge sc te) as G end.
+      cbn [fst] in G.
       specialize (IHe (so + offs (os1 ++ o :: os'') (length os1))
-                      (dn + offs (ns1 ++ n :: ns'') (length ns1))). lia.
+                      (dn + offs (ns1 ++ n :: ns'') (length ns1))).
+      pose proof (N.mul_le_mono_r _ _ sc IHe). rewrite (N.mul_comm sc (count_cells n)). lia.
 Qed.
 
 Lemma lower_old : forall o n, embeds o n ->
@@ -480,27 +575,27 @@ Lemma lower_old : forall o n, embeds o n ->
 Proof.
   apply (embeds_mind
     (fun o n => forall so dn, count_cells o <= snd (bp o n so dn))
-    (fun os' ns' => forall os1 ns1 so dn,
-       exists v, reachb (length (ns1 ++ ns')) (Tsc (os1 ++ os') (ns1 ++ ns') so dn)
+    (fun os' ns' => forall sc os1 ns1 so dn,
+       exists v, reachb (length (ns1 ++ ns')) (Tsc sc (os1 ++ os') (ns1 ++ ns') so dn)
                         (length os1) (length ns1) v /\
-                 sumN (map count_cells os') <= v)).
+                 sc * sumN (map count_cells os') <= v)).
   - intros s so dn. rewrite bp_unfold, nodes_match_refl. cbn [snd]. lia.
   - intros os ns _ IH so dn. destruct (nodes_match (FnCall os) (FnCall ns)) eqn:E.
     + rewrite bp_unfold, E. cbn [snd]. lia.
-    + rewrite (cells_of_call _ _ _ _ E).
-      destruct (IH [] [] so dn) as (v & R & B). cbn [app length] in R.
+    + apply call_lower; auto.
+      destruct (IH (bp_scale os ns) [] [] so dn) as (v & R & B). cbn [app length] in R.
       apply reachb_bound in R. rewrite count_cells_FnCall. lia.
-  - intros os1 ns1 so dn. exists 0. split; [|cbn; lia].
+  - intros sc os1 ns1 so dn. exists 0. split; [|cbn; lia].
     apply rb_end'; rewrite ?scores_length, !app_nil_r; reflexivity.
-  - intros os' n ns'' _ IH os1 ns1 so dn.
-    destruct (IH os1 (ns1 ++ [n]) so dn) as (v & R & B).
+  - intros os' n ns'' _ IH sc os1 ns1 so dn.
+    destruct (IH sc os1 (ns1 ++ [n]) so dn) as (v & R & B).
     rewrite <- app_assoc in R. cbn [app] in R.
     rewrite (app_length ns1 [n]) in R. cbn [length] in R. rewrite Nat.add_1_r in R.
     exists v. split; auto. apply rb_ins; auto.
     + rewrite scores_length, app_length. lia.
     + rewrite app_length. cbn [length]. lia.
-  - intros o n os'' ns'' _ IHe _ IH os1 ns1 so dn.
-    destruct (IH (os1 ++ [o]) (ns1 ++ [n]) so dn) as (v & R & B).
+  - intros o n os'' ns'' _ IHe _ IH sc os1 ns1 so dn.
+    destruct (IH sc (os1 ++ [o]) (ns1 ++ [n]) so dn) as (v & R & B).
     rewrite <- !app_assoc in R. cbn [app] in R.
     rewrite (app_length os1 [o]), (app_length ns1 [n]) in R. cbn [length] in R.
     rewrite !Nat.add_1_r in R.
@@ -508,9 +603,13 @@ Proof.
     + apply rb_com; [| |exact R].
       * rewrite scores_length, app_length. cbn [length]. lia.
       * rewrite app_length. cbn [length]. lia.
-    + rewrite score_mid. cbn [map]. rewrite sumN_cons.
+    + rewrite score_mid. cbn [map]. rewrite sumN_cons, N.mul_add_distr_l.
+      match goal with |- context [pair_score sc ?te] =>
+        pose proof (pair_score_ge sc te) as G end.
+      cbn [fst] in G.
       specialize (IHe (so + offs (os1 ++ o :: os'') (length os1))
-                      (dn + offs (ns1 ++ n :: ns'') (length ns1))). lia.
+                      (dn + offs (ns1 ++ n :: ns'') (length ns1))).
+      pose proof (N.mul_le_mono_r _ _ sc IHe). rewrite (N.mul_comm sc (count_cells o)). lia.
 Qed.
 
 (* ------------------------------------------------------------------ *)
@@ -553,4 +652,196 @@ Proof.
     assert (size o <= sumN (map p_sz (take_diff o n)) + 0).
     { apply L. intros i Hi. apply (S2 HE). lia. }
     lia.
+Qed.
+
+(* ------------------------------------------------------------------ *)
+(* removal / insertion of whole children of the root                   *)
+
+Inductive subseq : list skel -> list skel -> Prop :=
+| sub_nil : subseq [] []
+| sub_skip : forall l1 x l2, subseq l1 l2 -> subseq l1 (x :: l2)
+| sub_keep : forall x l1 l2, subseq l1 l2 -> subseq (x :: l1) (x :: l2).
+
+Definition child_off (cs : list skel) (i : nat) : N := sumN (map size (firstn i cs)).
+
+Lemma whole_reach_new : forall ns' os', subseq ns' os' ->
+  forall sc os1 ns1 so dn,
+    exists v, reachb (length (ns1 ++ ns')) (Tsc sc (os1 ++ os') (ns1 ++ ns') so dn)
+                     (length os1) (length ns1) v /\
+              sumN (map (vfull sc) ns') <= v.
+Proof.
+  intros ns' os' H. induction H as [|ns' o os'' H IH|x ns'' os'' H IH]; intros sc os1 ns1 so dn.
+  - exists 0. split; [|cbn; lia].
+    apply rb_end'; rewrite ?scores_length, !app_nil_r; reflexivity.
+  - destruct (IH sc (os1 ++ [o]) ns1 so dn) as (v & R & B).
+    rewrite <- app_assoc in R. cbn [app] in R.
+    rewrite (app_length os1 [o]) in R. cbn [length] in R. rewrite Nat.add_1_r in R.
+    exists v. split; auto. apply rb_del; auto.
+    + rewrite scores_length, app_length. cbn [length]. lia.
+    + rewrite app_length. lia.
+  - destruct (IH sc (os1 ++ [x]) (ns1 ++ [x]) so dn) as (v & R & B).
+    rewrite <- !app_assoc in R. cbn [app] in R.
+    rewrite !(app_length _ [x]) in R. cbn [length] in R. rewrite !Nat.add_1_r in R.
+    eexists. split.
+    + apply rb_com; [| |exact R].
+      * rewrite scores_length, app_length. cbn [length]. lia.
+      * rewrite app_length. cbn [length]. lia.
+    + rewrite score_mid, pair_score_exact. cbn [map]. rewrite sumN_cons. lia.
+Qed.
+
+Lemma whole_reach_old : forall os' ns', subseq os' ns' ->
+  forall sc os1 ns1 so dn,
+    exists v, reachb (length (ns1 ++ ns')) (Tsc sc (os1 ++ os') (ns1 ++ ns') so dn)
+                     (length os1) (length ns1) v /\
+              sumN (map (vfull sc) os') <= v.
+Proof.
+  intros os' ns' H. induction H as [|os' n ns'' H IH|x os'' ns'' H IH]; intros sc os1 ns1 so dn.
+  - exists 0. split; [|cbn; lia].
+    apply rb_end'; rewrite ?scores_length, !app_nil_r; reflexivity.
+  - destruct (IH sc os1 (ns1 ++ [n]) so dn) as (v & R & B).
+    rewrite <- app_assoc in R. cbn [app] in R.
+    rewrite (app_length ns1 [n]) in R. cbn [length] in R. rewrite Nat.add_1_r in R.
+    exists v. split; auto. apply rb_ins; auto.
+    + rewrite scores_length, app_length. lia.
+    + rewrite app_length. cbn [length]. lia.
+  - destruct (IH sc (os1 ++ [x]) (ns1 ++ [x]) so dn) as (v & R & B).
+    rewrite <- !app_assoc in R. cbn [app] in R.
+    rewrite !(app_length _ [x]) in R. cbn [length] in R. rewrite !Nat.add_1_r in R.
+    eexists. split.
+    + apply rb_com; [| |exact R].
+      * rewrite scores_length, app_length. cbn [length]. lia.
+      * rewrite app_length. cbn [length]. lia.
+    + rewrite score_mid, pair_score_exact. cbn [map]. rewrite sumN_cons. lia.
+Qed.
+
+(* the score of every pair is bounded by the value of a whole copy of either child *)
+Lemma score_le_vfull : forall sc os ns so dn c,
+  let te := tentry_at (mk_table os ns so dn) (fst c) (snd c) in
+  pair_score sc te <= nth (fst c) (map (vfull sc) os) 0 /\
+  pair_score sc te <= nth (snd c) (map (vfull sc) ns) 0.
+Proof.
+  intros sc os ns so dn [i j]. cbn [fst snd].
+  destruct (Nat.lt_ge_cases i (length os)) as [Hi|Hi];
+    [destruct (Nat.lt_ge_cases j (length ns)) as [Hj|Hj]|];
+    try (rewrite tentry_at_out by lia; cbn; lia).
+  rewrite (tentry_at_in _ _ _ _ _ _ (Mem 0) Hi Hj).
+  rewrite (nth_map_in _ _ (vfull sc) os i (Mem 0) 0 Hi).
+  rewrite (nth_map_in _ _ (vfull sc) ns j (Mem 0) 0 Hj).
+  destruct (bp_cells (nth i os (Mem 0)) (nth j ns (Mem 0)) (so + offs os i) (dn + offs ns j))
+    as (U1 & U2 & _).
+  split; apply pair_score_le_vfull; assumption.
+Qed.
+
+Lemma vfull_pos : forall sc c, 0 < count_cells c -> vfull sc c = count_cells c * sc + 1.
+Proof. intros sc c H. unfold vfull. destruct (N.ltb_spec 0 (count_cells c)); [reflexivity|lia]. Qed.
+
+Lemma whole_new : forall os ns so dn,
+  nodes_match (FnCall os) (FnCall ns) = false -> subseq ns os ->
+  forall j c, nth_error ns j = Some c -> 0 < count_cells c ->
+  exists i, nth_error os i = Some c /\
+    In (mkPatch (so + offs os i) (dn + offs ns j) (size c)) (fst (bp (FnCall os) (FnCall ns) so dn)).
+Proof.
+  intros os ns so dn E HS j c Hj Hc. rewrite bp_unfold, E. cbv zeta. cbn [fst].
+  set (sc := bp_scale os ns). set (T := mk_table os ns so dn).
+  set (rs := lcs_by_score _ _ _).
+  assert (Hcs : StronglySorted lt2 (commons rs)) by apply lcs_sorted.
+  assert (Ssnd : StronglySorted (fun a b => (snd a < snd b)%nat) (commons rs)).
+  { eapply SSorted_impl; [|exact Hcs]. intros a b [_ H]. exact H. }
+  set (w := fun c : nat * nat => pair_score sc (tentry_at T (fst c) (snd c))).
+  assert (HW : forall c, In c (commons rs) ->
+                 (0 <= snd c)%nat /\ w c <= nth (snd c) (map (vfull sc) ns) 0).
+  { intros c' _. split; [lia|]. apply score_le_vfull. }
+  destruct (tight snd w (map (vfull sc) ns) (commons rs) O Ssnd HW) as [TU TE].
+  rewrite pre_0 in TU, TE.
+  assert (V : wsum w (commons rs) = sumN (map (vfull sc) ns)).
+  { apply N.le_antisymm; [lia|].
+    unfold w, T, rs. rewrite lcs_value.
+    destruct (whole_reach_new ns os HS sc [] [] so dn) as (v & R & B). cbn [app length] in R.
+    apply reachb_bound in R. fold sc. lia. }
+  destruct TE as [T1 T2]; [lia|].
+  assert (Lj : (j < length ns)%nat) by (apply nth_error_Some; congruence).
+  assert (Nj : nth j ns (Mem 0) = c) by (now apply nth_error_nth).
+  assert (Vj : nth j (map (vfull sc) ns) 0 = count_cells c * sc + 1).
+  { rewrite (nth_map_in _ _ (vfull sc) ns j (Mem 0) 0 Lj), Nj. now apply vfull_pos. }
+  destruct (pr_dec snd (commons rs) j) as [([i0 j'] & Hin & Ej)|Hn];
+    [|specialize (T2 j ltac:(lia) Hn); lia].
+  cbn [snd] in Ej. subst j'.
+  specialize (T1 _ Hin). cbn [snd] in T1. rewrite Vj in T1. unfold w in T1. cbn [fst snd] in T1.
+  assert (Li : (i0 < length os)%nat).
+  { destruct (Nat.lt_ge_cases i0 (length os)); auto. exfalso.
+    unfold T in T1. rewrite tentry_at_out in T1 by lia. cbn in T1. lia. }
+  pose proof (In_collect T rs (i0, j)) as IC. cbn [fst snd] in IC.
+  unfold T in T1, IC. rewrite (table_at_in _ _ _ _ _ _ (Mem 0) Li Lj) in IC.
+  rewrite (tentry_at_in _ _ _ _ _ _ (Mem 0) Li Lj), Nj in T1. rewrite Nj in IC.
+  destruct (bp_cells (nth i0 os (Mem 0)) c (so + offs os i0) (dn + offs ns j)) as (_ & U2 & _).
+  apply pair_score_full in T1; [|exact U2]. cbn [snd] in T1.
+  apply nodes_match_eq in T1.
+  exists i0. split.
+  - rewrite (nth_error_nth' os (Mem 0) Li). now rewrite T1.
+  - apply nodup_In. apply IC; auto. rewrite T1, bp_unfold, nodes_match_refl. now left.
+Qed.
+
+Lemma whole_old : forall os ns so dn,
+  nodes_match (FnCall os) (FnCall ns) = false -> subseq os ns ->
+  forall i c, nth_error os i = Some c -> 0 < count_cells c ->
+  exists j, nth_error ns j = Some c /\
+    In (mkPatch (so + offs os i) (dn + offs ns j) (size c)) (fst (bp (FnCall os) (FnCall ns) so dn)).
+Proof.
+  intros os ns so dn E HS i c Hi Hc. rewrite bp_unfold, E. cbv zeta. cbn [fst].
+  set (sc := bp_scale os ns). set (T := mk_table os ns so dn).
+  set (rs := lcs_by_score _ _ _).
+  assert (Hcs : StronglySorted lt2 (commons rs)) by apply lcs_sorted.
+  assert (Sfst : StronglySorted (fun a b => (fst a < fst b)%nat) (commons rs)).
+  { eapply SSorted_impl; [|exact Hcs]. intros a b [H _]. exact H. }
+  set (w := fun c : nat * nat => pair_score sc (tentry_at T (fst c) (snd c))).
+  assert (HW : forall c, In c (commons rs) ->
+                 (0 <= fst c)%nat /\ w c <= nth (fst c) (map (vfull sc) os) 0).
+  { intros c' _. split; [lia|]. apply score_le_vfull. }
+  destruct (tight fst w (map (vfull sc) os) (commons rs) O Sfst HW) as [TU TE].
+  rewrite pre_0 in TU, TE.
+  assert (V : wsum w (commons rs) = sumN (map (vfull sc) os)).
+  { apply N.le_antisymm; [lia|].
+    unfold w, T, rs. rewrite lcs_value.
+    destruct (whole_reach_old os ns HS sc [] [] so dn) as (v & R & B). cbn [app length] in R.
+    apply reachb_bound in R. fold sc. lia. }
+  destruct TE as [T1 T2]; [lia|].
+  assert (Li : (i < length os)%nat) by (apply nth_error_Some; congruence).
+  assert (Ni : nth i os (Mem 0) = c) by (now apply nth_error_nth).
+  assert (Vi : nth i (map (vfull sc) os) 0 = count_cells c * sc + 1).
+  { rewrite (nth_map_in _ _ (vfull sc) os i (Mem 0) 0 Li), Ni. now apply vfull_pos. }
+  destruct (pr_dec fst (commons rs) i) as [([i' j0] & Hin & Ei)|Hn];
+    [|specialize (T2 i ltac:(lia) Hn); lia].
+  cbn [fst] in Ei. subst i'.
+  specialize (T1 _ Hin). cbn [fst] in T1. rewrite Vi in T1. unfold w in T1. cbn [fst snd] in T1.
+  assert (Lj : (j0 < length ns)%nat).
+  { destruct (Nat.lt_ge_cases j0 (length ns)); auto. exfalso.
+    unfold T in T1. rewrite tentry_at_out in T1 by lia. cbn in T1. lia. }
+  pose proof (In_collect T rs (i, j0)) as IC. cbn [fst snd] in IC.
+  unfold T in T1, IC. rewrite (table_at_in _ _ _ _ _ _ (Mem 0) Li Lj) in IC.
+  rewrite (tentry_at_in _ _ _ _ _ _ (Mem 0) Li Lj), Ni in T1. rewrite Ni in IC.
+  destruct (bp_cells c (nth j0 ns (Mem 0)) (so + offs os i) (dn + offs ns j0)) as (U1 & _ & _).
+  apply pair_score_full in T1; [|exact U1]. cbn [snd] in T1.
+  apply nodes_match_eq in T1.
+  exists j0. split.
+  - rewrite (nth_error_nth' ns (Mem 0) Lj). now rewrite <- T1.
+  - apply nodup_In. apply IC; auto. rewrite <- T1, bp_unfold, nodes_match_refl. now left.
+Qed.
+
+Lemma survivors_whole : forall (os ns : list skel) (total : N) (ps : list patch),
+  plan (FnCall os) (FnCall ns) = Some (total, ps) ->
+  (subseq ns os -> forall j c, nth_error ns j = Some c -> 0 < count_cells c ->
+      exists i, nth_error os i = Some c /\ In (mkPatch (child_off os i) (child_off ns j) (size c)) ps) /\
+  (subseq os ns -> forall i c, nth_error os i = Some c -> 0 < count_cells c ->
+      exists j, nth_error ns j = Some c /\ In (mkPatch (child_off os i) (child_off ns j) (size c)) ps).
+Proof.
+  intros os ns total ps HP.
+  assert (E : nodes_match (FnCall os) (FnCall ns) = false).
+  { destruct (nodes_match (FnCall os) (FnCall ns)) eqn:M; auto.
+    apply nodes_match_eq in M. rewrite M, plan_identical_none in HP. discriminate. }
+  apply plan_inv in HP as [-> ->]. unfold take_diff.
+  split; intros HS k c Hk Hc.
+  - destruct (whole_new os ns 0 0 E HS k c Hk Hc) as (i & Hi & Hp).
+    exists i. split; [exact Hi|exact Hp].
+  - destruct (whole_old os ns 0 0 E HS k c Hk Hc) as (j & Hj & Hp).
+    exists j. split; [exact Hj|exact Hp].
 Qed.
